@@ -243,6 +243,12 @@ pub fn run_adapter(old: &[u32], new: &[u32], script: &[DiffOp], stack: &str, out
             let mut d = Replace::new(Rec::new(-1));
             feed(&mut d, script)
         }
+        // the adapters stacked the other way round: Replace feeding Compact (Compact receives
+        // `replace` calls); validity and totals are demanded, not the normal form
+        "replace_over_compact" => {
+            let mut d = Replace::new(Compact::new(Rec::new(-1), &o[..], &n[..]));
+            feed(&mut d, script)
+        }
         // the same adapters over a sink that is handed over by reference
         "replace_ref" => {
             let mut sink = Rec::new(-1);
@@ -354,6 +360,9 @@ pub fn drive_c10(a: &Args, out: &mut Out) {
             run_adapter(&x, &y, &script, "replace_ref", out);
             run_adapter(&x, &y, &script, "compact_replace_ref", out);
         }
+        if i % 3 == 1 {
+            run_adapter(&x, &y, &script, "replace_over_compact", out);
+        }
     }
     for (i, (x, y)) in script_pairs(a, &mut rng).into_iter().enumerate() {
         for _ in 0..per {
@@ -364,6 +373,9 @@ pub fn drive_c10(a: &Args, out: &mut Out) {
             if i % 3 == 0 {
                 run_adapter(&x, &y, &script, "replace_ref", out);
                 run_adapter(&x, &y, &script, "compact_replace_ref", out);
+            }
+            if i % 3 == 1 {
+                run_adapter(&x, &y, &script, "replace_over_compact", out);
             }
         }
     }
